@@ -32,8 +32,12 @@ def generate(rng, tier):
     for (n, d) in pairs:
         cases.append({"op": "init", "n": n, "d": d, "seed": str(rng.choice(seeds))})
     # large requests (a size-dependent code path would show here), each with a smaller request for the prefix property
-    for (n, d) in [(128, 129)] + ([(256, 64), (200, 200), (256, 256)] if tier == "thorough" else []):
+    # quick tier: 64 x 65 is computed from the seed inside Coq, 128 x 129 (> 2^14 entries) is checked against the replayed stream
+    # by the oracle; the thorough tier computes the large ones from the seed as well
+    for (n, d) in [(64, 65)] + ([(128, 129), (256, 64), (200, 200), (256, 256)] if tier == "thorough" else []):
         cases.append({"op": "init", "n": n, "d": d, "seed": str(rng.getrandbits(64)), "smaller": rng.randint(1, 12), "big": True})
+    if tier != "thorough":
+        cases.append({"op": "init", "n": 128, "d": 129, "seed": str(rng.getrandbits(64)), "smaller": rng.randint(1, 12), "big": True, "huge": True})
     # the largest documented request (2^16 entries) and one above 2^15: checked against the replayed draw stream and the
     # prefix property by the oracle only (the literal is too long for the model's list walk in the quick tier)
     for (n, d) in [(256, 256), (182, 182)]:
